@@ -289,7 +289,10 @@ class Interp:
         if isinstance(f, ast.Attribute):
             dotted = ast.unparse(f)
             if dotted in self.stubs: return self.stubs[dotted](self, fr, args, guard)
-            if f.attr in self.stubs and not (isinstance(f.value, ast.Name) and f.value.id == "self"): return self.stubs[f.attr](self, fr, args, guard)
+            if f.attr in self.stubs and not (isinstance(f.value, ast.Name) and f.value.id == "self"):
+                try: fr.last_recv = self.expr(fr, f.value, guard)       # the receiver, for stubs that need it (x.replace(...))
+                except (Unsupported, KeyError, AttributeError): fr.last_recv = None
+                return self.stubs[f.attr](self, fr, args, guard)
             if dotted in ("math.floor", "math.ceil") and is_sym(args[0]):
                 v = args[0]
                 if isinstance(v, z3.BitVecRef): return v
